@@ -161,8 +161,18 @@ impl Rt {
             _ => BlockInfo { height: 1, time: Timestamp::from_nanos(1), chain_id: "cosmos-testnet-14002".into() },
         }
     }
+    /// The checksum handed to `with_checksum`: boundary values rotate with the seed (all zero, all ones, one).
     pub fn checksum(&self) -> Checksum {
-        Checksum::generate(format!("wrapper-{}", self.seed).as_bytes())
+        match self.seed % 4 {
+            1 => Checksum::from([0u8; 32]),
+            2 => Checksum::from([0xFFu8; 32]),
+            3 => {
+                let mut b = [0u8; 32];
+                b[31] = 1;
+                Checksum::from(b)
+            }
+            _ => Checksum::generate(format!("wrapper-{}", self.seed).as_bytes()),
+        }
     }
     /// Values supplied first and then replaced by a second call of the same step.
     pub fn decoy_checksum(&self) -> Checksum {
